@@ -177,7 +177,7 @@ def expected(spec):
             for row in rows:
                 label, pyname = row[0], row[1]
                 a = o['attrs'].get(pyname)
-                if a is None:
+                if a is None or a['v'] is None:          # never assigned a value (units alone do not make a value)
                     attrs[label] = None
                 else:
                     cnt, rc, toks = norm(row, a['v'], sim)
@@ -209,6 +209,8 @@ def expected(spec):
                     attrs['LONG-NAME'] = {'count': 1, 'rc': 20, 'units': '', 'vals': ['t' + hx(o['name'])]}
             if o['kind'] in ('parameter', 'computation'):
                 a = o['attrs'].get('values')
+                if a is not None and a['v'] is None:
+                    a = None              # units only: no values
                 if a is not None and isinstance(a['v'], (list, tuple)) and not flat(a['v']) and attrs['DIMENSION'] is None:
                     attrs['DIMENSION'] = 'ANY'       # no values: a dimension is meaningless either way
                 if a is not None and flat(a['v'] if isinstance(a['v'], (list, tuple)) else [a['v']]) and attrs['DIMENSION'] is None:
